@@ -1823,6 +1823,37 @@ class ShortcutNode(ListNode):
                 node = node.nodes[-1]
         return node
 
+    @staticmethod
+    def _copy_without_comments(node):
+        """
+        A copy of the entry a shortcut repeats or multiplies.
+
+        The comments that follow the entry stay with the entry: when the shortcut is written out
+        value by value they are written once, not once per value.
+
+        :param node: the entry before the shortcut
+        :type node: ValueNode
+        :rtype: ValueNode
+        """
+        ret = copy.deepcopy(node)
+        if ret.padding is not None:
+            kept = []
+            skip_break = False
+            for part in ret.padding.nodes:
+                if isinstance(part, CommentNode):
+                    skip_break = True
+                    continue
+                if skip_break and isinstance(part, str) and part == "\n":
+                    skip_break = False
+                    continue
+                skip_break = False
+                kept.append(part)
+            if kept:
+                ret.padding._nodes = kept
+            else:
+                ret.padding = None
+        return ret
+
     def _expand_repeat(self, p):
         self._nodes = self._get_last_node(p)
         repeat = p[1]
@@ -1836,7 +1867,9 @@ class ShortcutNode(ListNode):
         last_val = self._get_last_value_node(p[0])
         if last_val.value is None:
             raise ValueError(f"Repeat cannot follow a jump. Given: {list(p)}")
-        self._nodes += [copy.deepcopy(last_val) for i in range(repeat_num)]
+        self._nodes += [
+            self._copy_without_comments(last_val) for i in range(repeat_num)
+        ]
 
     def _expand_multiply(self, p):
         self._nodes = self._get_last_node(p)
@@ -1846,7 +1879,7 @@ class ShortcutNode(ListNode):
         last_val = self._get_last_value_node(p[0])
         if last_val.value is None:
             raise ValueError(f"Multiply cannot follow a jump. Given: {list(p)}")
-        self._nodes.append(copy.deepcopy(last_val))
+        self._nodes.append(self._copy_without_comments(last_val))
         self.nodes[-1].value *= mult_val
         # the product is a value of its own: a later type conversion (U, LAT, FILL: _convert_to_int
         # re-reads the token) must not fall back to the token of the value it was copied from
